@@ -11,5 +11,5 @@ Extraction "model.ml"
   disk0 apply_ev emit emits clear_trace dir flen seg_entries read_kv
   db_put db_delete db_get db_get_append db_has db_count db_items db_sync
   compact_pick compact_step db_compact db_close db_open db_backup backup_plan copy_seg backup_disk
-  fetch_bucket trunc_seg
+  fetch_bucket trunc_seg dbiter0 dbiter_step
   sget sput sdel scount.
